@@ -142,6 +142,7 @@ func edgeKeyHook(c *harness.Ctx, nodes map[string]int) {
 }
 
 func runC13(c *harness.Ctx) {
+	defer maybeWoven(c)()
 	t := c.T
 	mode := t.Draw("mode", 5)
 	modes := []string{"real-real", "real-client/ref-server", "ref-client/real-server", "reject-no-magic", "padding-boundary"}
@@ -383,6 +384,7 @@ func runC13(c *harness.Ctx) {
 }
 
 func runC14(c *harness.Ctx) {
+	defer maybeWoven(c)()
 	t := c.T
 	mode := t.Draw("mode", 4)
 	modes := []string{"real-real", "real-client/ref-server", "ref-client/real-server", "reject"}
